@@ -135,4 +135,14 @@ CHECKS = {
         'note': 'Known findings: == memo keys conflate 1/True/1.0 and reject unhashable values; names used in inline Python are not captured. Expansion semantics and '
                 'non-interference rest on C05 (locals) and C07 (same outcome for == keys).',
     },
+    'C13': {
+        'category': 'proof',
+        'technique': 'contract-based deductive verification: fragment contracts under the named convention (late binding as a postcondition), _run context threading; schematic obligations on real 3-level chains',
+        'text': 'Proved on fragments: every non-local rule reference (parsing position, template argument, callee, the _ignored request of literals) is an '
+                'attribute of the RUN-TIME context; super.R is the static parent context of the defining module; _run passes the received context '
+                'unchanged to every generator. Schematic obligations on real chains A <- B <- C (ignore none/named/anonymous per level, X overridden '
+                'plainly / via super / not, dotted names): override resolution, context completeness, static super, parent untouched, ignore and start inheritance.',
+        'design_ref': 'DESIGN.md 6 C13',
+        'note': 'Wiring exhaustive over the stated family only (rule bodies are placeholders); behavioural rows are ground executions under a 20 s budget.',
+    },
 }
